@@ -256,6 +256,22 @@ CommonFindings(km, oi, ei) ==
               IF Len(c.flows) # Len(recs) THEN {<<"C13", "common", "flow-count", ei.k>>}
               ELSE UNION {RecordFlowFindings(ei.k, recs[i][1], recs[i][2], c.flows[i]) : i \in 1..Len(recs)})
 
+\* When no reference run explains the structure, the export identity can still be judged from the observed
+\* accounting alone (item i occupies ObsWire bytes from its ObsStarts offset) - for items that hold no value of a
+\* kind known to re-export lossily and no IPFIX data at all (variable-length prefixes, omitted sets).
+ItemVals(it) ==
+  IF it.k = "v9" THEN Flatten([s \in 1..Len(it.sets) |-> IF it.sets[s].k = "data" THEN Flatten(it.sets[s].recs) ELSE <<>>])
+  ELSE <<>>
+ExportBasic(buf, out) ==
+  LET st == ObsStarts(out) IN
+  UNION {LET it == out[i] IN
+         IF it.k \notin {"v5", "v7", "v9"} \/ it.exp.st = "off" THEN {}
+         ELSE IF it.k = "v9" /\ LossyTags(ItemVals(it)) # {} THEN {}
+         ELSE IF st[i] + ObsWire(it) > Len(buf) THEN {}
+         ELSE IF it.exp.st = "ok" /\ it.exp.bytes = SubSeq(buf, st[i] + 1, st[i] + ObsWire(it)) THEN {}
+         ELSE {<<IF it.k = "v9" THEN "C09" ELSE "C08", it.k, "export", "differs-from-consumed-bytes">>}
+         : i \in 1..NumPackets(out)}
+
 PostFindings(km, buf, out, eout) ==
   ExportFindings(km, buf, out, eout) \cup UNION {CommonFindings(km, out[i], eout[i]) : i \in 1..Len(eout)}
 
@@ -377,7 +393,8 @@ Judge(buf, allow, preO, last, out, postO) ==
         (IF acct = "" THEN {} ELSE {<<"C02", "framing", acct, "">>})
         \cup devF
         \cup (IF matched THEN ContentFindings(km, out, run.out) \cup PostFindings(km, buf, out, run.out)
-             ELSE IF ri # 0 THEN {} ELSE Unexplained(km, out, ideal, allow))
+             ELSE (IF acct = "" THEN ExportBasic(buf, out) ELSE {})
+                  \cup (IF ri # 0 THEN {} ELSE Unexplained(km, out, ideal, allow)))
         \cup CacheFindings(buf, pre, post, run, matched),
       matched |-> matched, conf |-> conf, dev |-> IF matched \/ ri # 0 THEN run.used ELSE {"?"},
       last |-> [v9 |-> run.tm.v9.last, ipfix |-> run.tm.ipfix.last],
